@@ -330,53 +330,93 @@ def dump_switch_table(body):
     return out
 
 
+def _dfa_words(states, start=0):
+    """shortest word to every state reachable from `start` (breadth first over chars, range end points and one uncovered char for `_`)"""
+    from lexast import is_scalar
+    words = {start: []}
+    queue = [start]
+    while queue:
+        s = queue.pop(0)
+        st = states[s]
+        succ = [(c, t) for c, t in st['ch']] + [(a if is_scalar(a) else b, t) for a, b, t in st['rg']]
+        if st['any'] is not None:
+            c = 0x7A
+            while any(c == k for k, _ in st['ch']) or any(a <= c <= b for a, b, _ in st['rg']):
+                c += 1
+            succ.append((c, st['any']))
+        for c, t in succ:
+            if t is not None and t not in words and is_scalar(c):
+                words[t] = words[s] + [c]
+                queue.append(t)
+    return words
+
+
+def _state_reps(st):
+    """one representative of every outgoing class of a state AND of every gap next to it: keys, range end points and their neighbours"""
+    from lexast import is_scalar
+    reps = []
+    for c, _ in st['ch']:
+        reps += [c, c - 1, c + 1]
+    for a, b, _ in st['rg']:
+        reps += [a, b, a - 1, b + 1, (a + b) // 2]
+    out, seen = [], set()
+    for c in reps:
+        if c not in seen and 0 <= c <= 0x10FFFF and is_scalar(c):
+            seen.add(c)
+            out.append(c)
+    return out
+
+
 def edge_covering_inputs(body, max_inputs=60):
     """From the dumped (pre-simplification) DFA: for every state a shortest word reaching it from its
-    entry, extended by a representative of every outgoing class, by a character without transition and
-    by nothing (end of input)."""
-    from lexast import is_scalar
+    entry, extended by a representative of every outgoing class and of every gap between classes (the neighbours of keys and range
+    end points), by a character without transition and by nothing (end of input). For every accepting state whose rule has a right
+    context, the word is also extended by words covering every edge and gap of THAT context automaton."""
     states = parse_dump_dfa(body, 'full')
     if not states:
         return []
-    words = {}
     entries = [i for i, s in enumerate(states) if s['initial']]
-    out = []
+    out, ctx_out = [], []
+    ctx_cache = {}
     for e in entries[:1]:
         # only Init's block can be reached from an empty history; others need switches (scripts)
-        words = {e: []}
-        queue = [e]
-        while queue:
-            s = queue.pop(0)
-            st = states[s]
-            succ = [(c, t) for c, t in st['ch']] + [(a if is_scalar(a) else b, t) for a, b, t in st['rg']]
-            if st['any'] is not None:
-                # a char not covered by chars/ranges
-                c = 0x7A
-                while any(c == k for k, _ in st['ch']) or any(a <= c <= b for a, b, _ in st['rg']):
-                    c += 1
-                succ.append((c, st['any']))
-            for c, t in succ:
-                if t is not None and t not in words and is_scalar(c):
-                    words[t] = words[s] + [c]
-                    queue.append(t)
+        words = _dfa_words(states, e)
         for s, w in words.items():
             st = states[s]
             out.append(list(w))
-            reps = [c for c, _ in st['ch']] + [a for a, _, _ in st['rg']] + [b for _, b, _ in st['rg']]
-            for c in reps:
-                if is_scalar(c):
-                    out.append(w + [c])
-                    out.append(w + [c, 0x7A])
+            for c in _state_reps(st):
+                out.append(w + [c])
+                out.append(w + [c, 0x7A])
             out.append(w + [0x7A])
             out.append(w + [0x7A, 0x7A])
-    # dedupe, cap
-    seen, res = set(), []
+            for (_val, ctx) in st['acc']:
+                if ctx < 0:
+                    continue
+                if ctx not in ctx_cache:
+                    cs = parse_dump_dfa(body, 'ctx%d' % ctx)
+                    cw = []
+                    if cs:
+                        for cs_i, pre in _dfa_words(cs, 0).items():
+                            cw.append(pre)
+                            for c in _state_reps(cs[cs_i]):
+                                cw.append(pre + [c])
+                            cw.append(pre + [0x7A])
+                    ctx_cache[ctx] = cw
+                for cw in ctx_cache[ctx]:
+                    ctx_out.append(w + cw)
+    # dedupe, cap (the context-directed words get their own share of the budget)
+    seen, res, res2 = set(), [], []
     for w in out:
         k = tuple(w)
         if k not in seen:
             seen.add(k)
             res.append(w)
-    return res[:max_inputs]
+    for w in ctx_out:
+        k = tuple(w)
+        if k not in seen:
+            seen.add(k)
+            res2.append(w)
+    return res[:max_inputs] + res2[:max_inputs]
 
 
 # ---------------------------------------------------------------------------------------------
